@@ -48,6 +48,7 @@ fn tiling_inner(text: &str, first_bad: &mut [String; 3]) -> (Vec<(String, String
         (Some(a), Some(b)) if a < b => Some((a + 21, b)),
         _ => None,
     };
+    let (mut scan_pos, mut scan_line, mut scan_last_nl) = (0usize, 0usize, 0usize);
     for (i, t) in tokens.iter().enumerate() {
         let (s, e) = (t.span.start, t.span.end);
         if s > e || e > text.len() {
@@ -73,10 +74,17 @@ fn tiling_inner(text: &str, first_bad: &mut [String; 3]) -> (Vec<(String, String
             out.push((format!("text-differs-from-slice/{:?}", t.token_type), format!("token {} {:?} text {:?} but source[{}..{}] is {:?}", i, t.token_type, crate::util::short(&t.text, 20), s, e, crate::util::short(slice, 20))));
         }
         // line / column of the span start
-        let before = &text[..s];
-        let line = before.matches('\n').count();
-        let last_nl = before.rfind('\n').map(|x| x + 1).unwrap_or(0);
-        let seg = &before[last_nl..];
+        // incremental: spans are processed in increasing order (checked above)
+        for (k, b) in text.as_bytes()[scan_pos..s].iter().enumerate() {
+            if *b == b'\n' {
+                scan_line += 1;
+                scan_last_nl = scan_pos + k + 1;
+            }
+        }
+        scan_pos = s;
+        let line = scan_line;
+        let last_nl = scan_last_nl;
+        let seg = &text[last_nl..s];
         if t.line != line {
             out.push((format!("wrong-line/{:?}", t.token_type), format!("token {} {:?} at offset {} is on line {} but reports line {}", i, t.token_type, s, line, t.line)));
             return (out, units_ok);
